@@ -118,6 +118,10 @@ def scenarios():
     P['kill'] = ({'run': S([('yield',)], ('continue', 's1', [], {})), 's1': S([('yield',), ('yield',)], ('value', 1))},
                  [(2, ['ctl', ['kill', 'k']])])
     P['kill_direct'] = ({'run': S([], ('wait', 's1', None, None)), 's1': S([], ('value', 1))}, [(0, ['ctl', ['kill', 'k']])])
+    # killed while paused: before the first step, and with the stepping task parked on the pause future after a step
+    P['kill_paused_created'] = ({'run': S([], ('value', 1))}, [(0, ['ctl', ['pause', None]]), (1, ['ctl', ['kill', 'k']])])
+    P['kill_paused'] = ({'run': S([('yield',)], ('continue', 's1', [], {})), 's1': S([], ('value', 1))},
+                        [(1, ['ctl', ['pause', 'p']]), (3, ['ctl', ['kill', 'k']])])
     P['outputs'] = ({'run': S([('out', 'a', 1), ('yield',), ('out', 'b.c', 2)], ('value', None))}, [])
     P['unsuccessful'] = ({'run': S([], ('unsuccessful', 3))}, [])
     return P
